@@ -200,6 +200,44 @@ def invoke_events(rng, sc, lha, hdr, tier, ev, prefixers=()):
     return events
 
 
+def glob_list_events(rng, sc, lha, hdr, tier, ev):
+    """the list commands select rows by the same wildcard semantics (Glob.tla): one archive whose members are named by every
+    string of up to 3 characters over {a, b, ?, *} (plus some below a directory), every pattern of up to 3 (thorough: 4)
+    characters over {*, ?, a, b} and a sample of longer ones and of two-pattern lists, as arguments of lq2 / l / v"""
+    import itertools
+    names = [bytes(t) for L in (1, 2, 3) for t in itertools.product(b"ab?*", repeat=L)]
+    names += [b"d/" + n for n in (b"a", b"ab", b"?", b"b*")]
+    ms = [RG.G("file", n, data=n + b"\n", level=1 + (i % 2)) for i, n in enumerate(names)]
+    a, _ = RG.write_case(sc, "globlist", ms, "eod")
+    os.chmod(a, 0o644)
+    os.utime(a, (NOW - 5000, NOW - 5000))
+    members, p = LG.collect_members(hdr, [a], sc, "globlist")
+    recs = members[0]
+    if len(recs) != len(ms):
+        raise V.HarnessError("glob archive: %d members written, %d listed" % (len(ms), len(recs)))
+    mm = _records(ms, recs, False)
+    maxl = 3 if tier == "quick" else 4
+    lists = [[bytes(t)] for L in range(1, maxl + 1) for t in itertools.product(b"*?ab", repeat=L)]
+    for _ in range(60 if tier == "quick" else 1200):
+        lists.append([bytes(rng.choice(b"**??ab/d") for _ in range(rng.randint(maxl + 1, 7)))])
+    for _ in range(40 if tier == "quick" else 600):
+        lists.append([bytes(rng.choice(b"*?ab") for _ in range(rng.randint(1, 3))) for _ in range(2)])
+    events = []
+    mt = int(os.stat(a).st_mtime)
+    for k, pats in enumerate(lists):
+        word = [b"lq2", b"lq2", b"l", b"vq2"][k % 4]
+        pr = subprocess.run([lha.encode(), word, a.encode()] + pats, capture_output=True, env=V.run_env(TEST_NOW_TIME=str(NOW)), stdin=subprocess.DEVNULL, timeout=120, cwd=sc)
+        if pr.returncode < 0 or pr.returncode == 99:
+            raise V.HarnessError("lha %s with patterns %r died: %s" % (word, pats, pr.stderr.decode(errors="replace")[-300:]))
+        events.append({"e": "Invoke", "args": [list(word), list(a.encode())] + [list(x) for x in pats], "prog": list(lha.encode()), "src": "path", "there": True, "why": [],
+                       "help": b"usage: " in pr.stdout, "members": mm, "now": LG.w32(NOW), "mtime": LG.w32(mt), "totalratio": _totalratio(recs, pats),
+                       "out": list(pr.stdout), "err": [], "code": pr.returncode})
+    ev.set("list_wildcard_patterns_exhaustive_up_to_length", maxl)
+    ev.set("list_wildcard_lists_tried", len(lists))
+    ev.cls(("glob-list", maxl))
+    return events
+
+
 def validate(events, sc, ev, pid):
     nsh = min(V.NCPU, max(1, len(events) // 8))
     results = []
